@@ -277,6 +277,12 @@ package jsonschema
 //@     invariant buckets: new(hashes) && (forall h int {has(hashes, h)} :: has(hashes, h) ==> newOrNil(hashes[h]) && allocated(hashes[h]) && (isnil(hashes[h]) || fresh(hashes[h])))
 //@     invariant hashes: new(hashes) && (forall h int, k int :: has(hashes, h) ==> newOrNil(hashes[h]) && allocated(hashes[h]) && (0 <= k && k < len(hashes[h]) ==> 0 <= hashes[h][k] && hashes[h][k] < $i))
 
+// ApplyDefaults: "The argument must be a pointer to the instance."
+//@ contract (*Resolved).ApplyDefaults(rs, instancep)
+//@   entry
+//@   requires wfRS(rs)
+//@   requires ptr: kind(rvof(instancep)) == 22 && !rvisnil(rvof(instancep)) && shaped(rvelem(rvof(instancep)))
+
 // applyDefaults (property C15), as obligations at the three places where the instance map is written:
 // a required property is never filled; the default is inserted only for a missing key and is the bytes the
 // subschema declares; a present value is only replaced by the result of recursing on a copy of itself;
